@@ -276,6 +276,18 @@ func main() {
 		})
 	}
 
+	getterWrites, copyGetters := analyzeEffects(root)
+	var aliasGetters, freshGetters []string
+	for k, v := range copyGetters {
+		if v {
+			freshGetters = append(freshGetters, k)
+		} else {
+			aliasGetters = append(aliasGetters, k)
+		}
+	}
+	sort.Strings(aliasGetters)
+	sort.Strings(freshGetters)
+
 	var b bytes.Buffer
 	b.WriteString("import Verif.Model.Facts\n")
 	b.WriteString("-- GENERATED by /verif/harness/cmd/extract from /repo's working tree; do not edit.\n\n")
@@ -293,6 +305,9 @@ func main() {
 	fmt.Fprintf(&b, "  mixinExtDocsGuard := %v\n", mixinExtDocsGuard)
 	fmt.Fprintf(&b, "  schemaRefGuard := %v\n", schemaRefGuard)
 	fmt.Fprintf(&b, "  paramsNilSafe := %v\n", paramsNilSafe)
+	fmt.Fprintf(&b, "  getterWrites := %s\n", leanStrList(getterWrites))
+	fmt.Fprintf(&b, "  freshMapGetters := %s\n", leanStrList(freshGetters))
+	fmt.Fprintf(&b, "  aliasMapGetters := %s\n", leanStrList(aliasGetters))
 	fmt.Fprintf(&b, "  paramsForMethods := %s\n", leanStrList(paramsForMethods))
 	_ = sort.Strings
 
